@@ -433,11 +433,36 @@ def case(item):
 def fallback_case(item):
     """FALLBACK_SCSV and downgrade sentinel without a MITM: a client that
     retries at a lower version against a server supporting a higher one."""
-    cmax, smax, scsv, seed = item
+    cmax, smax, scsv, held, seed = item
+    suite = None
+    sess = cache = None
+    if held:
+        # the retrying client also offers the session of an earlier
+        # connection (made at the best TLS <= 1.2 version both support,
+        # with a suite that every version defines)
+        suite = CS.TLS_RSA_WITH_AES_128_CBC_SHA
+        first = S.Scen("c04/fallback-first", cred="rsa", suite=suite,
+                       minv=(3, 0), maxv=min(smax, (3, 3)), sminv=(3, 0),
+                       smaxv=smax, cache=True, etm=False,
+                       cset={"useExtendedMasterSecret": False})
+        p0, o0 = S.connect(first, seed=seed)
+        if o0["C"].status != "ok" or o0["S"].status != "ok":
+            return (cmax, smax, scsv, held), ("first-failed",), [
+                "first connection failed: %r" % (o0,)]
+        sess, cache = p0.c.session, p0.cache
+        p0.close("C")
+        p0.read("S", None, 1)
+        p0.close("S")
     sc = S.Scen("c04/fallback", cred="rsa", minv=(3, 0), maxv=cmax,
-                sminv=(3, 0), smaxv=smax, cset={"sendFallbackSCSV": scsv})
-    pair, out = S.connect(sc, seed=seed)
+                sminv=(3, 0), smaxv=smax, suite=suite, etm=not held,
+                cset={"sendFallbackSCSV": scsv,
+                      "useExtendedMasterSecret": not held})
+    pair, out = S.connect(sc, seed=seed + 1, session=sess, cache=cache)
     fails = []
+    key = (cmax, smax, scsv, held)
+    if held:
+        # restricted to a TLS <= 1.2 suite the client does not offer TLS 1.3
+        cmax = min(cmax, (3, 3))
     c_ok = out["C"].status == "ok"
     s_ok = out["S"].status == "ok"
     if scsv and cmax < smax:
@@ -450,9 +475,11 @@ def fallback_case(item):
     else:
         if not (c_ok and s_ok):
             fails.append("honest connection failed: %r" % (out,))
-        elif tuple(pair.c.version) != min(cmax, smax):
+        elif tuple(pair.c.version) != min(cmax, smax) and not (
+                held and pair.c.resumed and
+                tuple(pair.c.version) <= min(cmax, smax)):
             fails.append("negotiated %r" % (pair.c.version,))
-    return (cmax, smax, scsv), (c_ok, s_ok), fails
+    return key, (c_ok, s_ok), fails
 
 
 SENTINELS = {"tls12": b"DOWNGRD\x01", "tls11": b"DOWNGRD\x00", "none": None}
@@ -589,12 +616,13 @@ def run(res, tier, seed):
     for cmax in S.VERSIONS:
         for smax in S.VERSIONS:
             for scsv in (False, True):
-                items.append((cmax, smax, scsv, seed))
+                for held in (False, True):
+                    items.append((cmax, smax, scsv, held, seed))
     nf = 0
     for (k, sig, fails) in pmap(fallback_case, items):
         nf += 1
         res.count()
-        res.outcome(("fallback", k[2], k[0] < k[1], sig))
+        res.outcome(("fallback", k[2], k[3], k[0] < k[1], sig))
         for f in fails:
             res.violation({"part": "fallback", "what": f[:40]},
                           {"case": k, "fail": f}, {"fallback": k})
